@@ -73,6 +73,12 @@ def run_one(m):
                 lines = [l for l in out.split("\n") if "[" + (want or prop + "/") in l]
                 if lines:
                     detected = True
+        if m.get("silent"):
+            # negative control: a behaviour-preserving edit must not raise an alarm
+            if all("VIOLATION property=" not in o for o in outs):
+                return m, "silent-ok", ""
+            bad = [l for o in outs for l in o.split("\n") if "[C" in l][:2]
+            return m, "false-alarm", " | ".join(bad)
         if detected:
             return m, "detected", ""
         tail = "\n".join("\n".join(o.strip().split("\n")[-3:]) for o in outs)
@@ -101,7 +107,7 @@ def main():
     with cf.ThreadPoolExecutor(max_workers=jobs) as ex:
         for m, status, info in ex.map(run_one, sel):
             print("selftest %-9s %-28s expect %-8s %s" % (status, m["id"], m.get("expect_rule", ""), info.replace("\n", " | ")[:400]))
-            if status in ("missed", "broken"):
+            if status in ("missed", "broken", "false-alarm"):
                 bad += 1
     print("selftest: %d mutants, %d undetected/broken" % (len(sel), bad))
     return 2 if bad else 0
